@@ -88,6 +88,15 @@ Theorem C09_gap_found : forall g ops s, run (init g) ops = Some s -> quiescent s
 Proof. exact gap_found. Qed.
 Print Assumptions C09_gap_found.
 
+(* subscribe_addresses (the paging loop through which a (re)subscription or a freshly generated stretch of
+   addresses reaches the server): for every batch size b > 0 and every address list - in particular lists longer
+   than one batch of 1000 - each address gets exactly one update task, in order, carrying the status the server
+   answered for that very address. *)
+Theorem C09_subscribe_all : forall b (status : addr -> hist) addrs, 0 < b ->
+  subscribe_plan b addrs (map status) = map (fun a => (a, status a)) addrs.
+Proof. exact subscribe_all. Qed.
+Print Assumptions C09_subscribe_all.
+
 (* non-vacuity: a consistent two-transaction server (fund address 0; spend it to address 1 with a claim back to
    address 0 and a third-party output), the two addresses synced INTERLEAVED (address 1 saves first and cannot
    resolve the spend; address 0 then records it), gap 2: the run is accepted, ends quiescent and in sync with
@@ -96,4 +105,7 @@ Example C09_ex_run : option_map ex_report (run (init [(0%N, 2)]) ex_ops)
   = Some (600%N, 300%N, [(2%N, 0); (2%N, 1)], [(2%N, 0); (2%N, 1)], 4, 0, true).
 Proof. vm_compute. reflexivity. Qed.
 Example C09_ex_server_ok : server_ok_b ex_S = true.
+Proof. vm_compute. reflexivity. Qed.
+Example C09_ex_subscribe : subscribe_plan 2 [W 0 0; W 0 1; W 0 2; W 0 3; W 0 4] (map (fun a => match a with W _ n => [(N.of_nat n, 1%Z)] | _ => [] end))
+  = [(W 0 0, [(0%N, 1%Z)]); (W 0 1, [(1%N, 1%Z)]); (W 0 2, [(2%N, 1%Z)]); (W 0 3, [(3%N, 1%Z)]); (W 0 4, [(4%N, 1%Z)])].
 Proof. vm_compute. reflexivity. Qed.
